@@ -27,6 +27,7 @@ RULE = ('Hypothesis generates C01 (distance-independent) and C02 (distance-depen
         'distinct canonical JSON. Entries sortunit / sortlong: FitInfo.sort() on identity-coded results whose chi^2 vector '
         'holds +inf / NaN anywhere in package order (enumerated up to length 5, sampled up to 60); non-trivial = a '
         'non-finite value before a finite one.')
+RULE += (' ' + 'Also varied: everything the C01 / C02 generators vary (mixed filter lists, stored units, long model names, cube validity flags).')
 ASSUMPTIONS = [
     'package order of the models = row order of the convolved-flux files / cube written by the independent writer',
     'predicted fluxes are compared at 1e-9 absolute (dex) + float32 slack when memory-mapped',
